@@ -199,7 +199,10 @@ def main(argv=None):
       s.setdefault('shard', i)
       s.setdefault('seed', seed)
       s.setdefault('tier', tier)
-  timeout = getattr(mod, 'SHARD_TIMEOUT', {'quick': 240, 'thorough': 3000})[tier]
+  timeout = getattr(mod, 'SHARD_TIMEOUT', {'quick': 900, 'thorough': 3600})[tier]
+  # The shard watchdog only guards against hangs (its firing is inconclusive, never a violation); on a loaded
+  # machine a shard can take many times its usual wall time, so a floor applies to whatever the module asks for.
+  timeout = max(timeout, {'quick': 900, 'thorough': 3600}[tier])
   results = run_shards(pid, specs, args.jobs, timeout)
   m = merge(results)
 
